@@ -231,6 +231,11 @@ def decode_inputs(ctx, kt, n_valid, with_tampers, with_struct, n_unstructured, n
                 inputs.append(b); labels.append(lab)
             for lab, b in gens.wire_malformed_signed_canonical(rng, o, r):
                 inputs.append(b); labels.append(lab)
+        # every item of a record in every deformed framing, signed over the canonical content and over the wire bytes
+        small = sorted(recs, key=lambda r: len(r["pairs"]))
+        for r in small[:1] + (small[len(small) // 2:len(small) // 2 + 1] if not ctx.quick else []):
+            for lab, b in gens.rlp_deformation_matrix(rng, o, r, None if not ctx.quick else 220):
+                inputs.append(b); labels.append(lab)
         k0 = recs[0]["key"]
         base = {b"id": rlp_str(b"v4"), k0.entry: rlp_str(k0.pub), b"ip": rlp_str(bytes([10, 0, 0, 1]))}
         for lab, b in gens.honest_with_duplicates(rng, o, k0, 5, base) + gens.ill_typed_after_neighbour(rng, o, k0, 5, base) \
@@ -859,6 +864,65 @@ def cross_scheme_cases(ctx, kt):
     return cases
 
 
+def op_state_matrix(ctx, kt):
+    """every mutator x a fixed set of record states x argument classes (the value already stored / another valid value /
+    an invalid one) x signer (the record's key, another key of the scheme, a key of the other scheme under CombinedKey),
+    each as a two-step case: the call, and the same call again. Systematic where the random histories are not."""
+    rng, o = ctx.rng, ctx.oracle
+    ks = gens.secrets(rng, o, kt, 6)
+    a = ks[0]
+    same = [k for k in ks[1:] if k.scheme == a.scheme]
+    other = [k for k in ks[1:] if k.scheme != a.scheme]
+    slots = [("a", a)] + ([("b", same[0])] if same else []) + ([("c", other[0])] if other else [])
+    head = ["key %s %s" % (sl, k.spec) for sl, k in slots]
+    siglen = 16 if a.scheme == "toy" else 64
+    ip4, ip6 = bytes([10, 0, 0, 7]), bytes(range(16))
+    typical = {b"id": rlp_str(b"v4"), a.entry: rlp_str(a.pub), b"ip": rlp_str(ip4), b"udp": rlp_uint(30303), b"tcp": rlp_uint(80)}
+    full = dict(typical)
+    full.update({b"ip6": rlp_str(ip6), b"udp6": rlp_uint(30304), b"tcp6": rlp_uint(81), b"client": rlp_list(rlp_str(b"cl") + rlp_str(b"1.0")), b"foo": rlp_str(b"bar")})
+    states = [("min", 1, {b"id": rlp_str(b"v4"), a.entry: rlp_str(a.pub)}), ("typ", 5, typical), ("full", 127, full),
+              ("max", 2**64 - 1, typical), ("max-1", 2**64 - 2, typical), ("i63", 2**63 - 1, typical), ("grow", 65535, typical)]
+    for target, sq in ((300, 255), (296, 7)):
+        p2 = gens.pad_to(rng, sq, dict(typical), target, siglen)
+        if p2:
+            states.append(("sz%d" % target, sq, p2))
+    if other:
+        both = dict(typical); both[other[0].entry] = rlp_str(other[0].pub)
+        states.append(("both", 9, both))
+    def ops_for(pairs, sl):
+        d = pairs
+        cur_udp = int.from_bytes(d[b"udp"][1:] if d.get(b"udp", b"\x80")[0] >= 0x80 else d[b"udp"], "big") if b"udp" in d else 30303
+        out = ["set_seq %s 0 %d" % (sl, 6), "set_seq %s 0 0" % sl, "set_seq %s 0 %d" % (sl, 2**64 - 1),
+               "set_udp4 %s 0 %d" % (sl, cur_udp), "set_udp4 %s 0 9" % sl, "set_tcp4 %s 0 80" % sl, "set_udp6 %s 0 30304" % sl, "set_tcp6 %s 0 0" % sl,
+               "set_ip %s 0 %s" % (sl, ip4.hex()), "set_ip %s 0 %s" % (sl, ip6.hex()), "set_ip %s 0 %s" % (sl, bytes([1, 2, 3, 4]).hex()),
+               "set_udp_socket %s 0 %s %d" % (sl, ip4.hex(), cur_udp), "set_udp_socket %s 0 %s 5" % (sl, ip6.hex()), "set_tcp_socket %s 0 %s 80" % (sl, ip4.hex()),
+               "set_tcp_socket %s 0 %s 81" % (sl, ip6.hex()),
+               "remove_udp4 %s 0" % sl, "remove_udp6 %s 0" % sl, "remove_tcp %s 0" % sl, "remove_tcp6 %s 0" % sl,
+               "remove_udp_socket %s 0" % sl, "remove_udp6_socket %s 0" % sl, "remove_tcp_socket %s 0" % sl, "remove_tcp6_socket %s 0" % sl,
+               "remove_key %s 0 %s" % (sl, hx(b"foo")), "remove_key %s 0 %s" % (sl, hx(b"id")), "remove_key %s 0 %s" % (sl, hx(a.entry)), "remove_key %s 0 %s" % (sl, hx(b"nokey")),
+               "insert %s 0 %s b:%s" % (sl, hx(b"foo"), hx(b"bar")), "insert %s 0 %s b:%s" % (sl, hx(b"foo"), hx(b"baz")), "insert %s 0 %s u16:%d" % (sl, hx(b"udp"), cur_udp),
+               "insert %s 0 %s s:%s" % (sl, hx(b"id"), hx(b"v4")), "insert %s 0 %s s:%s" % (sl, hx(b"id"), hx(b"v5")), "insert %s 0 %s b:%s" % (sl, hx(b"ip"), hx(b"abcde")),
+               "insert_raw %s 0 %s %s" % (sl, hx(b"foo"), hx(rlp_str(b"bar"))), "insert_raw %s 0 %s %s" % (sl, hx(b"udp"), hx(rlp_uint(cur_udp))), "insert_raw %s 0 %s c0" % (sl, hx(b"x")),
+               "insert_raw %s 0 %s 8100" % (sl, hx(b"x")),
+               "set_client_info %s 0 %s %s none" % (sl, hx(b"cl"), hx(b"1.0")), "set_client_info %s 0 %s %s %s" % (sl, hx(b"cl"), hx(b"1.1"), hx(b"b")),
+               "remove_insert %s 0 %s %s:%s" % (sl, hx(b"tcp"), hx(b"udp"), hx(be(cur_udp))), "remove_insert %s 0 none none" % sl,
+               "remove_insert %s 0 %s,%s %s:%s" % (sl, hx(b"udp"), hx(b"id"), hx(b"id"), hx(b"v4"))]
+        for s2, k2 in slots:
+            out.append("set_public_key %s 0 %s" % (sl, s2))
+            out.append("insert %s 0 %s b:%s" % (sl, hx(k2.entry), hx(k2.pub)))
+        return out
+    cases = []
+    for name, sq, pairs in states:
+        b = record_bytes(o, a, sq, sorted(pairs.items()))[0]
+        for sl, k in slots:
+            ops = ops_for(pairs, sl)
+            if ctx.quick:
+                ops = rng.sample(ops, 14 if sl == "a" else 8)
+            for op in ops:
+                cases.append(head + ["load " + b.hex(), "op " + op, "op " + op])
+    return cases
+
+
 def port_cases(ctx, kt, ports):
     """C14: every given port on all four port keys through builder, setter, socket setter and decode"""
     rng, o = ctx.rng, ctx.oracle
@@ -918,6 +982,8 @@ def check_history_property(ctx):
             cases += cross_scheme_cases(ctx, gk)
         if pid in ("C05", "C08", "C14", "C09"):
             cases += builder_reuse_cases(ctx, gk)
+        if pid in ("C05", "C06", "C07", "C08", "C10"):
+            cases += op_state_matrix(ctx, gk)
         if pid == "C08":
             # error kinds at the size limit: ExceedsMaxSize exactly when the result would not fit
             cases += size_neutral_cases(ctx, gk)[:ctx.scale(30, 300)]
